@@ -119,8 +119,11 @@ def run_check(pid: str, tier: str) -> int:
         "known_findings_reproduced": sorted(seen_known),
         "repo": os.environ.get("HUGR_REPO", "/repo"),
     }
-    EVIDENCE.mkdir(exist_ok=True)
-    (EVIDENCE / f"{pid}.json").write_text(json.dumps(evidence, indent=1, default=str))
+    # evidence under /verif/evidence is only ever written from runs against /repo itself;
+    # seeded-change experiments (HUGR_REPO=<scratch>) write theirs next to the scratch copy
+    evdir = EVIDENCE if os.path.realpath(evidence["repo"]) == "/repo" else Path("/tmp/verif-evidence-scratch")
+    evdir.mkdir(exist_ok=True)
+    (evdir / f"{pid}.json").write_text(json.dumps(evidence, indent=1, default=str))
 
     keys = ("states", "transitions", "traces_validated_against_impl", "evaluations", "distinct_nontrivial")
     summ = " ".join(f"{k}={cov[k]}" for k in keys if k in cov)
